@@ -340,6 +340,9 @@ def _train_op(rep: Report, plan: dict[str, Any], ref: R.RefKFAC,
     world = plan['world']
     r0 = min(by_rank)
     s = ref.steps
+    ref.ext_it = op['it']
+    if unint is not None:
+        unint.ext_it = op['it']
     rep.stats['train_ops'] += 1
     for r, rec in by_rank.items():
         if rec['steps_before'] != s:
